@@ -1,6 +1,6 @@
 (* C10 — a compiled query's string form recompiles to an equivalent query.
    Statements only; proofs live in proofs/PrintParseProofs.v (parser), proofs/PrintLexProofs.v
-   (lexer) and proofs/NormProofs.v.
+   (lexer), proofs/RoundTrip.v and proofs/NormProofs.v.
 
    Serialize.query_text is the string form; TokPrint.query_toks the token sequence it is made
    of; TokPrint.norm_query what reparsing yields (a selector that stood alone at path level
@@ -10,7 +10,7 @@
        compile_tokens (query_toks q) = Ok (norm_query q)  C10_parse
    and norm_query is shown to change neither the results nor the string form. *)
 From JP Require Import Base Json Syntax Lex Parse Eval Serialize TokPrint Printable Gate
-                       NormProofs PrintParseProofs PrintLexProofs.
+                       NormProofs PrintParseProofs PrintLexProofs RoundTrip.
 
 (* the string form of a compiled query, as tokens, parses back to its normal form *)
 Theorem C10_parse :
@@ -38,7 +38,7 @@ Theorem C10_roundtrip :
     gate_query (e_min_index E) (e_max_index E) q = true -> printable re_ok q = true ->
     query_text E q = Ok t ->
     compile E re_ok t = Ok (norm_query q).
-Proof. exact PrintLexProofs.roundtrip. Qed.
+Proof. exact RoundTrip.roundtrip. Qed.
 Print Assumptions C10_roundtrip.
 
 (* the normal form returns the same matches on every document ... *)
